@@ -26,7 +26,7 @@ REQUIRED = ["deliveries_judged", "exp_ack", "exp_nack", "exp_retry", "exp_resche
 CASE_TIMEOUT = 120
 
 EAGER = ("ack", "nack", "reject", "retry", "force_retry", "reschedule")
-FAIL_EXC = ("ValueError", "RuntimeError", "KeyError", "AppTimeout", "ZeroDivisionError")
+FAIL_EXC = ("ValueError", "RuntimeError", "KeyError", "AppTimeout", "ZeroDivisionError", "EmptyErrors", "QuietError")
 POLICY_STEP = 0.25
 PERIOD = 3.0
 
